@@ -76,7 +76,7 @@ def interpret(case):
             regs[t[1]] = [tuple(v[j:j + arity]) if arity == 2 else v[j] for j in range(0, len(v), arity)]
         elif code == 'P':
             import c19
-            regs[t[1]] = [x for x in floats(t[8:]) if c19.keep(x, int(t[7]))]
+            regs[t[1]] = [x for x in floats(t[8:]) if c19.keep(x, t[7] if t[7].startswith('t') else int(t[7]))]
         elif code == 'M':
             regs.setdefault(t[1], []).extend(list(regs.get(t[2], [])))
         elif code == 'K':
